@@ -88,4 +88,15 @@ Proof.
   unfold Values.returns, pyop, FUEL. cbn [binop dispatch lc_dunder lc_divmod bind ret uneg same_class NI].
   repeat apply wp_bind. apply divmod_wp; [exact I|]. intros [q r] s' sg' _ [Vq _]. cbn [ret wp tuple_nth nth fst snd is_lc] in *. rewrite Vq. cbn [sval constv]. esimp. reflexivity.
 Qed.
+(* branching.if_then_else on two secret integers with a LinCombBool condition (no identity shortcut) *)
+Theorem op_select cb t f o : same_val (PLC t) (PLC f) = false ->
+  returns (if_then_else c (pyop c) (PBool o cb) (PLC t) (PLC f)) s sg (is_lc (fun r => r = v f + v cb * (v t - v f))).
+Proof.
+  intros Hne. unfold Values.returns, if_then_else. cbn [ite_fuel]. rewrite Hne. cbn [andb]. unfold pyop, FUEL.
+  cbn [binop dispatch lc_dunder bool_dunder bool_rdunder lc_rdunder bind ret uneg same_class lcr NI].
+  repeat apply wp_bind. apply mul_wp; [exact I|]. intros m s' sg' P Sm Vm Cc Ctf.
+  cbn [ret wp bind lcr is_lc]. cbn [sval add]. esimp. rewrite Vm. cbn [sval add neg]. esimp.
+  cbn [vscopedb sval add neg] in Ctf. apply andb_prop in Ctf. destruct Ctf as [Ct Cf]. cbn [vscopedb] in Cf. apply andb_prop in Cf. destruct Cf as [_ Cf].
+  rewrite (ve_ext ins ig _ _ _ _ (proj1 I) (proj1 (proj2 P)) Cf). ring.
+Qed.
 End OV.
